@@ -27,7 +27,7 @@ type lisOut struct {
 	Out    string      `json:"out"` // cfg | err | panic
 	Msg    string      `json:"msg"`
 	Listen [][3]string `json:"listen"` // (addr, proto, cert source name) of every listener of the option
-	// Stable: the same input, loaded again several times, gave the same outcome and the same listeners
+	// Stable: the same input, loaded again eight times, gave the same outcome and the same listeners
 	// (parseListen ranges over a Go map; nothing observable may depend on its order)
 	Stable bool `json:"stable"`
 	// oracles for the external parsers, recomputed on every run
@@ -64,6 +64,32 @@ func respell(r *hx.Rand, p string) string {
 
 func genListener(r *hx.Rand, haveCs bool) string {
 	var parts []string
+	if r.Chance(2, 5) { // a well-formed entry: only pieces parseListen accepts
+		a := r.Pick([]string{":1234", ":80", "1.2.3.4:443", "[::1]:99", "localhost:1"})
+		if r.Chance(1, 4) {
+			a = "addr=" + a
+		}
+		parts = append(parts, a)
+		if haveCs && r.Chance(1, 2) {
+			parts = append(parts, "cs=mycs")
+			if r.Chance(2, 3) {
+				parts = append(parts, "proto="+r.Pick([]string{"https", "tcp", "tcp-dynamic", "grpcs", "prometheus", "https+tcp+sni"}))
+			}
+		} else if r.Chance(2, 3) {
+			parts = append(parts, "proto="+r.Pick([]string{"http", "tcp", "tcp+sni", "tcp-dynamic", "grpc", "prometheus", "https+tcp+sni", "\"tcp\""}))
+		}
+		for n := r.Intn(3); n > 0; n-- {
+			parts = append(parts, r.Pick([]string{"rt=1s", "wt=250ms", "it=1m", "pxyproto=true", "pxytimeout=1s", "strictmatch=true", "tlsmin=tls12", "tlsmax=tls13", "refresh=5s", "unknownkey=1"}))
+		}
+		if r.Chance(1, 3) && len(parts) > 1 {
+			j := r.Intn(len(parts))
+			parts[0], parts[j] = parts[j], parts[0]
+			if !strings.Contains(parts[j], "=") { // a positional address that is not first must be named
+				parts[j] = "addr=" + parts[j]
+			}
+		}
+		return strings.Join(parts, ";")
+	}
 	addr := r.Pick([]string{":1234", ":80", "1.2.3.4:443", "[::1]:99", "localhost:1", "0.0.0.0:0"})
 	switch r.Intn(10) {
 	case 0:
@@ -200,7 +226,7 @@ func runListen(raw json.RawMessage) (interface{}, error) {
 	}
 	out.Out, out.Msg, out.Listen = load()
 	out.Stable = true
-	for rep := 0; rep < 12 && out.Stable; rep++ {
+	for rep := 0; rep < 8 && out.Stable; rep++ {
 		k, _, ls := load()
 		out.Stable = k == out.Out && fmt.Sprint(ls) == fmt.Sprint(out.Listen)
 	}
